@@ -173,6 +173,45 @@ impl Optimizer {
         out
     }
 
+    /// Applies the single named rewrite once at the root of `expr` (with this optimizer's analysis,
+    /// i.e. catalog, statistics and config) and returns every new form of the root it produced.
+    /// `lhs` disambiguates rules that share a name. Returns `None` if no such rule exists.
+    pub fn verif_apply_rule(&self, name: &str, lhs: &str, expr: &RecExpr) -> Option<Vec<RecExpr>> {
+        use egg::Language;
+        let extra = rules::range::filter_scan_rule();
+        let rule = STAGE1_RULES
+            .iter()
+            .chain(STAGE2_RULES.iter())
+            .chain(STAGE3_RULES.iter())
+            .chain(extra.iter())
+            .find(|r| {
+                r.name.as_str() == name
+                    && r.searcher
+                        .get_pattern_ast()
+                        .map(|p| p.to_string() == lhs)
+                        .unwrap_or(true)
+            })?;
+        let mut egraph = EGraph::new(self.analysis.clone());
+        let root = egraph.add_expr(expr);
+        egraph.rebuild();
+        let before = egraph[root].nodes.clone();
+        let Some(matches) = rule.searcher.search_eclass(&egraph, root) else {
+            return Some(vec![]);
+        };
+        rule.applier.apply_matches(&mut egraph, &[matches], rule.name);
+        egraph.rebuild();
+        let root = egraph.find(root);
+        let extractor = egg::Extractor::new(&egraph, egg::AstSize);
+        let mut out = vec![];
+        for node in &egraph[root].nodes {
+            if before.contains(node) {
+                continue;
+            }
+            out.push(node.build_recexpr(|id| extractor.find_best_node(id).clone()));
+        }
+        Some(out)
+    }
+
     /// Same three stages as `optimize`, with the named rules removed from every stage.
     pub fn verif_optimize_without(&self, mut expr: RecExpr, banned: &[String]) -> RecExpr {
         let keep = |rs: Vec<&'static Rewrite>| -> Vec<Rewrite> {
